@@ -2,7 +2,7 @@
 from .. import core, econ, econgen, econprops
 
 ID = 'C07'
-RUNS = {'quick': 900, 'thorough': 40000}
+RUNS = {'quick': 700, 'thorough': 40000}
 WALL_CAP = {'quick': 70, 'thorough': 1800}
 BLOCK = 8
 RULE = ('runs = seeded multi-zone ECON programs (2-3 currencies, time-varying non-unit exogenous exchange rates, '
